@@ -15,8 +15,8 @@ DRAWS  == EnvInt("DRAWS", 1)        \* maximal number of drawing calls per histo
 FOCUS  == EnvStr("FOCUS", "frame")  \* frame | clip | layer | history | xform
 INITK  == EnvStr("INITK", "distinct")
 SALT   == EnvInt("SALT", 0)
-W == 5
-H == 5
+W == EnvInt("W", 5)
+H == EnvInt("H", 5)
 
 VARIABLES calls, stk, nd, hs
 vars == <<calls, stk, nd, hs>>
